@@ -183,7 +183,12 @@ func (t *tcpHandler) sendCloseMsg() {
 	})
 }
 
-// CloseIdles close all idle connections(no active package within n secnods)
+// CloseIdles wakes up the receive loop of every idle connection (no request in flight and no
+// active package within n seconds) and reports whether no connection is left.
+// It does not close a connection itself: while the server is closing, a woken receive loop
+// returns, waits until the connection's last request has been answered, closes the connection
+// and removes it from t.conns. Closing it from here could cut off a request that the receive
+// loop has just read.
 func (t *tcpHandler) CloseIdles(n int64) bool {
 	if atomic.LoadInt32(&t.isListenClosed) == 0 {
 		// hack: create new connection to avoid acceptTCP hanging
@@ -200,13 +205,16 @@ func (t *tcpHandler) CloseIdles(n int64) bool {
 	allClosed := true
 	t.conns.Range(func(key, val interface{}) bool {
 		conn := val.(*connInfo)
+		// still in the map: its own goroutine has not closed it yet
+		allClosed = false
 		TLOG.Debugf("num invoke %d %v", atomic.LoadInt32(&conn.numInvoke), conn.idleTime+n > time.Now().Unix())
 		if atomic.LoadInt32(&conn.numInvoke) > 0 || conn.idleTime+n > time.Now().Unix() {
-			allClosed = false
 			return true
 		}
 		verifServerYield(t.server.protocol, "CloseIdles.beforeClose", conn.conn)
-		conn.conn.Close()
+		if err := conn.conn.SetReadDeadline(time.Now()); err != nil {
+			TLOG.Errorf("SetReadDeadline: %v", err)
+		}
 		return true
 	})
 	return allClosed
